@@ -253,4 +253,5 @@ def run(prog: Program, rep: Report, tier: str = "quick") -> None:
     from . import game
 
     game.add_instances(rep, game.c09_job, [(i, tier) for i in range(nn)], "R9.9", 25 * nn)
+    rep.arbitrate({"R9.1", "R9.3", "R9.5"}, "R9.9", "pair terms are complementary, one value per team in input order, two-team form p and 1 - p")
     rep.supersede({"R9.1", "R9.3", "R9.5"}, "R9.9", "pair terms are complementary, one value per team in input order, two-team form p and 1 - p")
